@@ -15,9 +15,13 @@
 (***************************************************************************)
 EXTENDS Integers, Sequences, FiniteSets
 CONSTANTS Kind, Dom, Tol, One, Deltas, Factors, Divisors, MaxLen,
-          Halves   \* integer kinds only: operands h/2 of another arithmetic type (double) handed to += -= *= /=
-VARIABLES val, subs, notes, ret
-vars == <<val, subs, notes, ret>>
+          Halves,  \* integer kinds only: operands h/2 of another arithmetic type (double) handed to += -= *= /=
+          Thrower  \* TRUE: the callback of subscriber 2 throws (after recording its notification). The exception leaves the operator:
+                   \* subscribers that come after it in subscription order miss THIS notification; the value has changed all the same,
+                   \* and the next operation is an ordinary one
+VARIABLES val, subs, notes, ret,
+          first    \* which of two current subscribers subscribed first (0: fewer than two)
+vars == <<val, subs, notes, ret, first>>
 
 Abs(x) == IF x < 0 THEN -x ELSE x
 \* floating point only: three distinguished values outside Dom (written as integers the harness maps to real values)
@@ -37,18 +41,19 @@ TruncDiv(a, b) == IF (a >= 0) = (b > 0) THEN Abs(a) \div Abs(b) ELSE -(Abs(a) \d
 Strs == UNION {[1..n -> {1, 2}] : n \in 0..MaxLen}
 Values == IF Kind = "str" THEN Strs ELSE Dom
 
-Init == /\ val \in Values /\ subs = {} /\ notes = {} /\ ret = val
+Init == /\ val \in Values /\ subs = {} /\ notes = {} /\ ret = val /\ first = 0
 
-NotifyAll(v) == {<<s, v>> : s \in subs}
+NotifyAll(v) == IF Thrower /\ subs = {1, 2} /\ first = 2 THEN {<<2, v>>}      \* 2 is notified first and throws: 1 is never reached
+                ELSE {<<s, v>> : s \in subs}
 \* operator= : compare, store, notify; an Eq-equal assignment leaves the stored value untouched
 Assign(v) == /\ v \in Values
              /\ IF Eq(val, v) THEN UNCHANGED val /\ notes' = {}
                               ELSE val' = v /\ notes' = NotifyAll(v)
-             /\ ret' = val' /\ UNCHANGED subs
+             /\ ret' = val' /\ UNCHANGED <<subs, first>>
 \* apply() and the compound operators: mutate, then notify iff the value changed according to Eq
 Mutate(nv) == /\ InDom(nv) /\ val' = nv
               /\ notes' = IF Eq(val, nv) THEN {} ELSE NotifyAll(nv)
-              /\ ret' = nv /\ UNCHANGED subs
+              /\ ret' = nv /\ UNCHANGED <<subs, first>>
 Ord == val \notin Specials      \* the arithmetic of the model is defined on ordinary values only
 Add(d) == Kind # "str" /\ Ord /\ d \in Deltas /\ Mutate(val + d)
 Sub(d) == Kind # "str" /\ Ord /\ d \in Deltas /\ Mutate(val - d)
@@ -64,24 +69,24 @@ DivF(h) == Kind = "int" /\ h \in Halves /\ h # 0 /\ Mutate(TruncDiv(2 * val, h))
 AssignF(h) == /\ Kind = "int" /\ h \in Halves /\ InDom(TruncDiv(h, 2))
               /\ LET nv == TruncDiv(h, 2) IN
                  IF Eq(val, nv) THEN UNCHANGED val /\ notes' = {} ELSE val' = nv /\ notes' = NotifyAll(nv)
-              /\ ret' = val' /\ UNCHANGED subs
+              /\ ret' = val' /\ UNCHANGED <<subs, first>>
 \* operator=(2^24): an ordinary assignment of a value outside Dom
 AssignBig == /\ Kind = "flt"
              /\ IF Eq(val, Big) THEN UNCHANGED val /\ notes' = {} ELSE val' = Big /\ notes' = NotifyAll(Big)
-             /\ ret' = val' /\ UNCHANGED subs
+             /\ ret' = val' /\ UNCHANGED <<subs, first>>
 \* 2^24 += 0.25 (or 0.5): the sum rounds back to 2^24 -- the value did not change, nobody is notified
 AddAbsorbed(d) == /\ Kind = "flt" /\ val = Big /\ d \in {1, 2}
-                  /\ UNCHANGED <<val, subs>> /\ notes' = {} /\ ret' = Big
+                  /\ UNCHANGED <<val, subs, first>> /\ notes' = {} /\ ret' = Big
 \* a finite non-zero value divided by zero becomes an infinity: a change like any other
 DivZero == /\ Kind = "flt" /\ Ord /\ val # 0
-           /\ val' = (IF val > 0 THEN PInf ELSE NInf) /\ notes' = NotifyAll(val') /\ ret' = val' /\ UNCHANGED subs
+           /\ val' = (IF val > 0 THEN PInf ELSE NInf) /\ notes' = NotifyAll(val') /\ ret' = val' /\ UNCHANGED <<subs, first>>
 Concat(s) == Kind = "str" /\ s \in Strs /\ Len(s) >= 1 /\ Mutate(val \o s)
 Apply(f) == /\ f \in {"id", "inc", "zero"} /\ (Ord \/ f = "zero")
             /\ Mutate(CASE f = "id" -> val
                         [] f = "inc" -> IF Kind = "str" THEN val \o <<1>> ELSE val + One
                         [] f = "zero" -> IF Kind = "str" THEN <<>> ELSE 0)
 \* increment and decrement always notify
-Step(nv, r) == /\ Kind # "str" /\ Ord /\ InDom(nv) /\ val' = nv /\ notes' = NotifyAll(nv) /\ ret' = r /\ UNCHANGED subs
+Step(nv, r) == /\ Kind # "str" /\ Ord /\ InDom(nv) /\ val' = nv /\ notes' = NotifyAll(nv) /\ ret' = r /\ UNCHANGED <<subs, first>>
 PreInc == Step(val + One, val + One)
 PostInc == Step(val + One, val)
 PreDec == Step(val - One, val - One)
@@ -89,10 +94,11 @@ PostDec == Step(val - One, val)
 \* Observable b(std::move(a)) / b = std::move(a): value and comparator move along, nobody is notified. Only without
 \* subscribers: a Subscription handle keeps pointing at the Subject inside the OLD object, so handles do not survive a
 \* move (spec note N8) and a history that moves a subscribed Observable and then uses a handle is not a valid one
-MoveConstruct == subs = {} /\ notes' = {} /\ ret' = val /\ UNCHANGED <<val, subs>>
-MoveAssign == subs = {} /\ notes' = {} /\ ret' = val /\ UNCHANGED <<val, subs>>
-Subscribe(s) == s \in {1, 2} \ subs /\ subs' = subs \cup {s} /\ notes' = {} /\ ret' = val /\ UNCHANGED val
-Unsubscribe(s) == s \in subs /\ subs' = subs \ {s} /\ notes' = {} /\ ret' = val /\ UNCHANGED val
+MoveConstruct == subs = {} /\ notes' = {} /\ ret' = val /\ UNCHANGED <<val, subs, first>>
+MoveAssign == subs = {} /\ notes' = {} /\ ret' = val /\ UNCHANGED <<val, subs, first>>
+Subscribe(s) == /\ s \in {1, 2} \ subs /\ subs' = subs \cup {s} /\ notes' = {} /\ ret' = val /\ UNCHANGED val
+                /\ first' = IF subs = {} THEN 0 ELSE CHOOSE o \in subs : TRUE
+Unsubscribe(s) == s \in subs /\ subs' = subs \ {s} /\ notes' = {} /\ ret' = val /\ first' = 0 /\ UNCHANGED val
 
 Next == \/ \E v \in Values : Assign(v)
         \/ \E d \in Deltas : Add(d) \/ Sub(d)
@@ -111,5 +117,6 @@ TypeOK == (InDom(val) \/ val \in Specials) /\ subs \subseteq {1, 2}
 ExactlyOnce == \A n1, n2 \in notes : n1[1] = n2[1] => n1 = n2
 NewValue == \A n \in notes : n[2] = val /\ n[1] \in subs
 \* every change (according to Eq) notifies everybody, no change notifies nobody  (++/-- excepted: they always notify)
-ChangeNotifies == [][(val' # val /\ ~Eq(val, val')) => notes' = {<<s, val'>> : s \in subs'}]_vars
+ChangeNotifies == [][(val' # val /\ ~Eq(val, val')) =>
+                        (notes' = {<<s, val'>> : s \in subs'} \/ (Thrower /\ subs' = {1, 2} /\ first' = 2 /\ notes' = {<<2, val'>>}))]_vars
 =============================================================================
